@@ -74,8 +74,8 @@ flat_collider = nb.flat_collider
 
 def gen_cases(rng, tier):
     cases = []
-    n = dict(quick=dict(general=60, aspect=70, ident=30, nested=20, touch=60, flat=50, lattice=40, bigmesh=50),
-             thorough=dict(general=900, aspect=900, ident=300, nested=250, touch=700, flat=600, lattice=500, bigmesh=600))[tier]
+    n = dict(quick=dict(general=60, aspect=70, ident=30, nested=20, touch=60, flat=50, lattice=40, bigmesh=50, latbox=160),
+             thorough=dict(general=900, aspect=900, ident=300, nested=250, touch=700, flat=600, lattice=500, bigmesh=600, latbox=1500))[tier]
     for _ in range(n["general"]):
         s1, s2, meta = nw.gen_pair(rng, tier)
         cases.append(dict(c1=s1, c2=s2, meta=meta))
@@ -131,6 +131,9 @@ def gen_cases(rng, tier):
         r = nb.bigmesh_pair(rng)
         if r is not None:
             cases.append(dict(c1=r[0], c2=r[1], meta=r[2]))
+    for i in range(n["latbox"]):
+        a, b, meta = nb.lattice_box_pair(rng, overlap=rng.choice([True, True, True, None]))
+        cases.append(dict(c1=a, c2=b, meta=meta))
     for c in cases:
         c["ops"] = ops_for(c["c1"], c["c2"], c.get("same_object", False))
     # small BVHs for self-collision detection
@@ -245,7 +248,8 @@ def run(tier, seed, replay=None):
         "general D (random/lattice/moderate/wide/plane-gap), aspect ratios to 1e4 (needles, plates; as-is, touching, overlapping), "
         "identical (equal copy / the same Python object twice), nested, touching at gaps in {0,+-1e-12,+-1e-9,+-1e-6,+-1e-4}, "
         "zero-volume (vertex, segment, triangle, planar hull, disk, ellipse), exact lattice placements, big meshes (radius 10..100) "
-        "with a small collider in front of a face (search direction = face normal: mesh hill climbing, F-M1). distinct by canonical "
+        "with a small collider in front of a face (search direction = face normal: mesh hill climbing, F-M1), axis-aligned boxes / cube "
+        "meshes / cube hulls with sizes and offsets on a 0.25 grid (collinear and coplanar Minkowski-difference vertices). distinct by canonical "
         "hash; non-trivial = at least one entry point needed more than 2 loop passes (support evaluations > 4)")
     R.assumptions += [
         "support evaluations are counted by wrapping collider.support_function; the specialised Nesterov supports bypass it, there the returned iteration count is bounded instead (<= max_interations)",
@@ -401,8 +405,26 @@ def run(tier, seed, replay=None):
     phase("judging")
     if not replay:
         try:
-            R.cov["implementation_statement_coverage"] = nb.statement_coverage(PID, cases, n=32 if tier == "quick" else 400,
-                                                                               workers=8 if tier == "quick" else 16)
+            cov = nb.statement_coverage(PID, cases, n=48 if tier == "quick" else 400, workers=8 if tier == "quick" else 16)
+            # the same entry points INTERPRETED (NUMBA_DISABLE_JIT=1): the exception / finiteness policy holds there too
+            n_int = 0
+            for x in cov.pop("interpreted_exceptions", []):
+                c = cases[x["case"]]
+                op = c["ops"][x["op"]]
+                key = x["fn"] + ("+acc" if op.get("kw", {}).get("use_nesterov_acceleration") else "")
+                if x.get("exc") == "AssertionError" and x["fn"] == "epa_full" and (is_smooth(c["c1"]) or is_smooth(c["c2"])) \
+                        and "n_faces < self.max_faces" in (x.get("tb") or ""):
+                    continue
+                if x.get("exc") == "TIMEOUT":
+                    continue            # interpreted code is slow; liveness is judged on the compiled run
+                kid = "F2-C19" if (x["fn"] == "epa_full" and x.get("n_points") is not None and x["n_points"] < 4) else None
+                n_int += 1
+                what = f"raised {x['exc']}: {x.get('exc_msg', '')}" if x.get("exc") else f"non-finite outputs: {x.get('nonfinite')}"
+                report(f"{key} INTERPRETED (NUMBA_DISABLE_JIT=1) {what}",
+                       dict(c1=c["c1"], c2=c["c2"], meta=c["meta"], same_object=c.get("same_object", False), jit=False, op=op),
+                       key, kid)
+            cov["interpreted_policy_failures"] = n_int
+            R.cov["implementation_statement_coverage"] = cov
         except Exception as e:  # noqa
             R.notes.append(f"statement coverage run failed: {type(e).__name__}: {e}")
     phase("statement_coverage")
